@@ -234,8 +234,11 @@ let prog_of (f : sx list) =
   let orders = L.map order_ (field "orders" f) in
   let succs = L.map (function S [k; S l] -> (key_ k, L.map key_ l) | _ -> failwith "succ") (field "succs" f) in
   let pools = field "pools" f in
-  (ds, mk_prog ds bs input (nat_ (one "mgrs")) (bool_ (one "mgr_gated")) mgr_faults (store_ (one "store"))
-     (bool_ (one "store_gated")) store_faults orders succs (bool_ (L.nth pools 0)) (bool_ (L.nth pools 1)))
+  let p = mk_prog ds bs input (nat_ (one "mgrs")) (bool_ (one "mgr_gated")) mgr_faults (store_ (one "store"))
+     (bool_ (one "store_gated")) store_faults orders succs (bool_ (L.nth pools 0)) (bool_ (L.nth pools 1)) in
+  (* (pick j): which of several failed helper tasks run() reports (index into the model's task_errors); default 0 *)
+  let p = (try (match field "pick" f with [v] -> with_pick p (nat_ v) | _ -> p) with Failure _ -> p) in
+  (ds, p)
 
 let handle (line : string) : unit =
   Buffer.clear b;
